@@ -1,4 +1,5 @@
-import Momo.Proof.PoolBulk
+import Momo.Proof.PoolHist
+import Momo.Proof.PoolSingle
 import Momo.Proof.PoolDll
 /-!
 # C09 — Memory pool blocks are aligned, disjoint, inside owned memory, and all returned
@@ -166,6 +167,64 @@ theorem C09_freed_all_returned (P : Params) (hL : P.Legal) (hN2 : 2 ≤ P.N) (p 
     have h0 : p.allocCount = 0 := by rw [h.count_exact hM hN2, hl]; rfl
     exact destroy_ok hM hN2 hA2 h h0
 
+/-- **C09 (state, `deallocIf_exact`).** `DeallocateIf` on any well-formed state, for any filter: it succeeds;
+the filter is asked exactly once about each live block and about nothing else (`tr` is a permutation of the
+live blocks); afterwards the live blocks are exactly those for which the filter answered no; the state is
+well formed (hence the count is exact again) and every `free` was legal. -/
+theorem C09_deallocIf_exact (P : Params) (hL : P.Legal) (hN2 : 2 ≤ P.N) (p : Pool) (h : PoolWF P p)
+    (f : Int → Bool) :
+    ∃ tr p' evs, deallocateIf P p f = .ok tr p' evs ∧ PoolWF P p' ∧
+      (p'.live P).Perm ((p.live P).filter (fun x => !f x)) ∧ tr.Perm (p.live P) ∧
+      LedgerOK P p.store evs p'.store := by
+  obtain ⟨hM, hA2⟩ := Legal.multi hL hN2
+  exact deallocateIf_ok hM hN2 hA2 h f
+
+/-- **C09 (state, all histories).** Every state reached by a legal history - any sequence of `Allocate`
+(succeeding or refused by the manager), `Deallocate` of live blocks, `DeallocateIf`, `DeallocateAll` and
+`MergeFrom` of pools holding different memory, with a manager that honours its contract - is well formed,
+its reported count is the number of live blocks, and the calls made to the manager so far form an exact
+ledger of the memory the pool holds. Destroying the pool once no block is live (or calling
+`DeallocateAll` at any time) leaves that ledger EMPTY: all memory has been returned. -/
+theorem C09_history (P : Params) (hL : P.Legal) (hN2 : 2 ≤ P.N) (p : Pool) (es : List Ev) (h : Reach P p es) :
+    PoolWF P p ∧ p.allocCount = (p.live P).length ∧ LedgerIs P es p.store ∧
+    (∃ evs, deallocateAll P p = .ok () Pool.empty evs ∧ ledger [] (es ++ evs) = some []) ∧
+    (p.live P = [] → ∃ evs, destroy P p = .ok () Pool.empty evs ∧ ledger [] (es ++ evs) = some []) := by
+  obtain ⟨hM, hA2⟩ := Legal.multi hL hN2
+  obtain ⟨hwf, hled⟩ := h.inv hM hN2 hA2
+  have hend : ∀ evs, LedgerOK P p.store evs [] → ledger [] (es ++ evs) = some [] := by
+    intro evs hl
+    obtain ⟨L, h1, h2⟩ := hled.step hl
+    rw [h1]; simp only [owned, List.map_nil] at h2; rw [List.perm_nil.mp h2]
+  refine ⟨hwf, hwf.count_exact hM hN2, hled, ?_, ?_⟩
+  · obtain ⟨p', evs, h1, h2, h3⟩ := deallocateAll_ok hM hN2 hA2 hwf
+    exact ⟨evs, by rw [h1, h2], hend evs h3⟩
+  · intro hl
+    have h0 : p.allocCount = 0 := by rw [hwf.count_exact hM hN2, hl]; rfl
+    obtain ⟨evs, h1, h2⟩ := destroy_ok hM hN2 hA2 hwf h0
+    exact ⟨evs, h1, hend evs h2⟩
+
+/-! ## state machine, `blockCount == 1` -/
+
+/-- **C09 (state, `blockCount == 1`).** Every block is its own allocation. In every well-formed state:
+the count is the number of live blocks; `Allocate` returns an aligned block that was not live (or leaves the
+pool unchanged when the manager refuses), `Deallocate` of a live block removes exactly it, the destructor of
+a pool without live blocks returns every allocation - each `free` with the address and size obtained (the
+16-bit offset behind the block leads back to it). -/
+theorem C09_single_state (P : Params) (hL : P.Legal) (hN1 : P.N = 1) (p : Pool) (h : SingleWF P p) :
+    p.allocCount = (p.live P).length ∧
+    (∀ orc, Contract1 P p orc →
+      match allocate P p orc with
+      | .ok blk p' evs => Allocate1Spec P p p' blk evs
+      | .badAlloc p' evs => p' = p ∧ evs = [] ∧ orc 0 = none
+      | .stuck _ => False) ∧
+    (∀ blk ∈ p.live P, ∃ p' evs, deallocate P p blk = .ok () p' evs ∧ Dealloc1Spec P p p' blk evs) ∧
+    (p.live P = [] → ∃ p' evs, destroy P p = .ok () p' evs ∧ p'.singles = [] ∧ p'.store = [] ∧
+      Ledger1OK P p.singles evs []) := by
+  refine ⟨h.count_exact hN1, fun orc hc => allocate_single_ok hL hN1 h hc,
+    fun blk hb => deallocate_single_ok hN1 h blk hb, fun hl => ?_⟩
+  have h0 : p.allocCount = 0 := by rw [h.count_exact hN1, hl]; rfl
+  exact destroy_single_ok hN1 h h0
+
 /-! ## pointer level -/
 
 /-- **C09 (pointer level, `mergeFrom_dll`).** The list surgery of `MergeFrom` as written (lines 406-433),
@@ -220,6 +279,8 @@ example : newBuffer exP 1000005 = ⟨1000032, -1, 11⟩ := by decide
 /-- the empty pool is well formed; three allocations need two buffers and leave a well-formed state
     (by `C09_alloc_fresh`), with the head buffer full and moved before the new head -/
 example : PoolWF exP Pool.empty := PoolWF.empty exP
+example : Reach exP Pool.empty [] := Reach.init
+example : SingleWF ⟨64, 512, 1, 0⟩ Pool.empty := SingleWF.empty _
 def exThree : Option (List Int × List Int × List Int × List Ev) :=
   match allocate exP Pool.empty (fun _ => some 1000000) with
   | .ok b1 p1 _ =>
